@@ -393,6 +393,67 @@ func variants(rig *blkrig.Rig) []variant {
 
 			return true
 		}},
+		// each voteproof separately off the manifest's point (the point of the
+		// proposal the manifest commits to), in each direction; everything
+		// else (signatures, proposal, ACCEPT majority = manifest hash) intact
+		{"ivp-earlier-round", "INIT voteproof of an earlier round of the same height; ACCEPT voteproof untouched", func(b *blkrig.Block) bool {
+			if b.Round < 1 {
+				return false
+			}
+
+			ivp, _, err := rig.Voteproofs(base.NewPoint(b.Height, b.Round-1), b.Manifest.Previous(), b.Manifest.Proposal(), b.Manifest.Hash(), nil)
+			if err != nil {
+				return false
+			}
+
+			b.IVP = ivp
+
+			return true
+		}},
+		{"ivp-later-round", "INIT voteproof of a later round of the same height; ACCEPT voteproof untouched", func(b *blkrig.Block) bool {
+			ivp, _, err := rig.Voteproofs(base.NewPoint(b.Height, b.Round+1), b.Manifest.Previous(), b.Manifest.Proposal(), b.Manifest.Hash(), nil)
+			if err != nil {
+				return false
+			}
+
+			b.IVP = ivp
+
+			return true
+		}},
+		{"avp-earlier-round", "ACCEPT voteproof (majority = manifest hash) of an earlier round of the same height; INIT voteproof untouched", func(b *blkrig.Block) bool {
+			if b.Round < 1 {
+				return false
+			}
+
+			_, avp, err := rig.Voteproofs(base.NewPoint(b.Height, b.Round-1), b.Manifest.Previous(), b.Manifest.Proposal(), b.Manifest.Hash(), nil)
+			if err != nil {
+				return false
+			}
+
+			b.AVP = avp
+
+			return true
+		}},
+		{"avp-later-round", "ACCEPT voteproof (majority = manifest hash) of a later round of the same height; INIT voteproof untouched", func(b *blkrig.Block) bool {
+			_, avp, err := rig.Voteproofs(base.NewPoint(b.Height, b.Round+1), b.Manifest.Previous(), b.Manifest.Proposal(), b.Manifest.Hash(), nil)
+			if err != nil {
+				return false
+			}
+
+			b.AVP = avp
+
+			return true
+		}},
+		{"vps-both-other-round", "INIT and ACCEPT voteproofs both of another round (equal points, ACCEPT majority = manifest hash), not the round of the manifest's proposal", func(b *blkrig.Block) bool {
+			ivp, avp, err := rig.Voteproofs(base.NewPoint(b.Height, b.Round+2), b.Manifest.Previous(), b.Manifest.Proposal(), b.Manifest.Hash(), nil)
+			if err != nil {
+				return false
+			}
+
+			b.IVP, b.AVP = ivp, avp
+
+			return true
+		}},
 		{"vps-other-height", "INIT and ACCEPT voteproofs of another height", func(b *blkrig.Block) bool {
 			ivp, avp, err := rig.Voteproofs(base.NewPoint(b.Height+1, b.Round), valuehash.RandomSHA256(), b.Manifest.Proposal(), b.Manifest.Hash(), nil)
 			if err != nil {
@@ -468,7 +529,7 @@ func TestC16(t *testing.T) {
 		for i := 0; i < nblocks; i++ {
 			spec := blkrig.Spec{
 				NOps: 2 + rng.Intn(3), NStatesPerOp: 1 + rng.Intn(3),
-				Suffrage: i == 0 || rng.Intn(2) == 0, NNodes: 1 + rng.Intn(3), Round: base.Round(rng.Intn(3) * min(i, 1)),
+				Suffrage: i == 0 || rng.Intn(2) == 0, NNodes: 1 + rng.Intn(3), Round: base.Round(i % 3),
 			}
 			// the last block of every world has one operation that failed processing
 			if i == nblocks-1 {
